@@ -151,6 +151,31 @@ def task_default_cutoff(ctx):
     ctx.undecided_clause("the separate overlap cutoff (rij <= 40 bohr) drops resonance integrals of magnitude < e^-40: documented, not a violation of the stated pair-cutoff semantics")
 
 
+def replay_monopole(model):
+    """real pair_nuclear_energy (MNDO) for an O-C pair at the model's distance (and at 10 / 30 / 100 bohr) with (ss|ss) handed in:
+    the result must be Z_A Z_B (ss|ss) (1 + exp(-alpha_A R) + exp(-alpha_B R)) at every distance."""
+    import math
+    import torch
+    from seqm.seqm_functions.energy import pair_nuclear_energy
+    from seqm.seqm_functions.constants import Constants
+    import seqm.seqm_functions.constants as C
+
+    torch.set_default_dtype(torch.float64)
+    const = Constants()
+    rows, bad = [], False
+    rs = [abs(model_float(model, "rij_0", 50.0)) or 50.0, 10.0, 30.0, 100.0]
+    for r in rs:
+        gam = C.ev / math.sqrt(r * r + 1.5 ** 2)
+        al = torch.tensor([3.16, 2.55])
+        got = float(pair_nuclear_energy(None, const, 1, torch.tensor([8]), torch.tensor([6]), torch.tensor([0]), torch.tensor([1]), torch.tensor([r]), None, None, None, None,
+                                        gam=torch.tensor([gam]), method="MNDO", parameters=(al,))[0])
+        R = r * C.a0
+        want = 6.0 * 4.0 * gam * (1 + math.exp(-3.16 * R) + math.exp(-2.55 * R))
+        rows.append({"r_bohr": r, "computed_eV": got, "Z_A Z_B (ss|ss)(1+...)_eV": want, "difference_eV": got - want})
+        bad = bad or abs(got - want) > 1e-9
+    return {"reproduced": bad, "pair": "O-C, MNDO, (ss|ss) = ev/sqrt(r^2 + 1.5^2)", "rows": rows}
+
+
 def task_monopole(ctx):
     """The monopole part of core-core, core-electron and electron-electron interaction uses the one integral (ss|ss)."""
     from contracts import C02_rigid_motion as C02
@@ -187,7 +212,7 @@ def task_monopole(ctx):
         R = real("rij_%d" % p) * a0
         al = (real("alpha_%d" % (2 * p)), real("alpha_%d" % (2 * p + 1)))
         want = nddo.core_core("MNDO", ZA, ZB, ss[p], R, al[0], al[1], p == 1, [], [], expf)
-        ctx.prove_eq("pair%d.core-core=Z_A Z_B (ss|ss)(1+...)" % p, En.a[p], want)
+        ctx.prove_eq("pair%d.core-core=Z_A Z_B (ss|ss)(1+...)" % p, En.a[p], want, replay=replay_monopole, classify=lambda m_, r: "core-core-not-the-monopole-integral")
     ctx.assume_note("(ss|ss) -> ev/sqrt(r^2 + (rho0A+rho0B)^2) is proved in C06 (local_frame); with it the monopole parts of core-core, core-electron and electron-electron terms cancel for neutral spherical populations")
 
 
